@@ -155,6 +155,10 @@ func (s *jwtSigner) Hash() []byte {
 	jwk := s.jwk
 	s.mut.RUnlock()
 
+	return s.hashFor(jwk)
+}
+
+func (s *jwtSigner) hashFor(jwk jose.JSONWebKey) []byte {
 	hash := sha256.New()
 	hash.Write(stringx.ToBytes(jwk.KeyID))
 	hash.Write(stringx.ToBytes(jwk.Algorithm))
@@ -169,6 +173,14 @@ func (s *jwtSigner) Hash() []byte {
 }
 
 func (s *jwtSigner) Sign(sub string, ttl time.Duration, customClaims map[string]any) (string, error) {
+	token, _, err := s.sign(sub, ttl, customClaims)
+
+	return token, err
+}
+
+// sign works like Sign, but returns the hash (see Hash) of the key, it used for signing, as well. The key
+// store may be reloaded at any time. So, a hash queried separately may belong to another key.
+func (s *jwtSigner) sign(sub string, ttl time.Duration, customClaims map[string]any) (string, []byte, error) {
 	s.mut.RLock()
 	jwk := s.jwk
 	key := s.key
@@ -181,7 +193,7 @@ func (s *jwtSigner) Sign(sub string, ttl time.Duration, customClaims map[string]
 			WithHeader("kid", jwk.KeyID).
 			WithHeader("alg", jwk.Algorithm))
 	if err != nil {
-		return "", errorchain.NewWithMessage(heimdall.ErrInternal, "failed to create JWT signer").CausedBy(err)
+		return "", nil, errorchain.NewWithMessage(heimdall.ErrInternal, "failed to create JWT signer").CausedBy(err)
 	}
 
 	claims := make(map[string]any)
@@ -200,10 +212,10 @@ func (s *jwtSigner) Sign(sub string, ttl time.Duration, customClaims map[string]
 
 	rawJwt, err := builder.Serialize()
 	if err != nil {
-		return "", errorchain.NewWithMessage(heimdall.ErrInternal, "failed to sign claims").CausedBy(err)
+		return "", nil, errorchain.NewWithMessage(heimdall.ErrInternal, "failed to sign claims").CausedBy(err)
 	}
 
-	return rawJwt, nil
+	return rawJwt, s.hashFor(jwk), nil
 }
 
 func (s *jwtSigner) Keys() []jose.JSONWebKey {
